@@ -6,6 +6,10 @@
 
   `c11_same_image`        : `Schema::layout_compatible` only holds between schemas that prescribe the same size
                             and the same image for every value — by mutual induction over the schema tree
+  `c11_same_memory`       : the same for memory as a whole (`holdsAt`), the heap included: if the schema records
+                            where a `Vec`/`String` header keeps pointer and length, the elements behind the
+                            pointer are part of what is prescribed, recursively — memory that represents `x`
+                            under one of two layout-compatible schemas represents `x` under the other
   `c11_unknown_*`         : anything unknown (a size, an alignment, a field offset, a Vec/String layout probe),
                             an `Option`, a custom node: never layout compatible
   `c11_by_ref_decision`   : for an argument that is not a trait object / closure / future / box, the argument is
@@ -26,6 +30,10 @@ namespace Sfv
 theorem c11_same_image (a b : Schema) (h : layoutCompatible a b = true) :
     schemaSize a = schemaSize b ∧ ∀ base x, imgAt base a x = imgAt base b x :=
   layout_img a b h
+
+theorem c11_same_memory (mem : Mem) (a b : Schema) (h : layoutCompatible a b = true) (base : Nat) (x : V) :
+    holdsAt mem base a x = holdsAt mem base b x :=
+  layout_holds mem a b h base x
 
 theorem c11_unknown_size (n n' : Bytes) (al al' sb : Option Nat) (fa fb : SFieldL) :
     layoutCompatible (.struct n none al fa) (.struct n' sb al' fb) = false := by
@@ -80,5 +88,19 @@ def exB : Schema := .struct [66] (some 8) (some 4) (.cons [120] (.prim .u32) (so
 example : layoutCompatible exA exB = true := by decide
 example : imgAt 0 exA (.tup (.cons (.num 1) (.cons (.num 513) .nil)))
     = some [(0, 1), (1, 0), (2, 0), (3, 0), (4, 1), (5, 2)] := by decide
+
+/-- a `Vec<u16>` in the standard header layout: pointer, capacity, length; the two elements lie where the
+    pointer says -/
+def exVec : Schema := .vector (.prim .u16) .dataCapLen
+def exMem : Mem := fun a =>
+  ([ (100, 200), (101, 0), (102, 0), (103, 0), (104, 0), (105, 0), (106, 0), (107, 0),   -- data pointer = 200
+     (108, 4), (109, 0), (110, 0), (111, 0), (112, 0), (113, 0), (114, 0), (115, 0),     -- capacity = 4
+     (116, 2), (117, 0), (118, 0), (119, 0), (120, 0), (121, 0), (122, 0), (123, 0),     -- length = 2
+     (200, 1), (201, 2), (202, 255), (203, 0) ] : List (Nat × UInt8)).lookup a
+
+example : holdsAt exMem 100 exVec (.seq (.cons (.num 513) (.cons (.num 255) .nil))) = true := by decide
+example : holdsAt exMem 100 exVec (.seq (.cons (.num 513) (.cons (.num 256) .nil))) = false := by decide
+/-- the same header read under another layout names another pointer: not a representation -/
+example : holdsAt exMem 100 (.vector (.prim .u16) .lenDataCap) (.seq (.cons (.num 513) (.cons (.num 255) .nil))) = false := by decide
 
 end Sfv
